@@ -381,6 +381,77 @@ def as_completed_model(chk, rnd):
     print(f'MODEL-DRIFT property=C06 as_completed: {drift} of {len(scheds)} task-level schedules of AsCompleted.tla could not be followed step by step')
 
 
+LIFE_SCRIPTS = {
+    # disciplined use: what stop() returned is joined before the server is started again (a worker that rejoins)
+    'join-then-start': (dict(a=['start', 'stop', 'join', 'start']), True),
+    'twice': (dict(a=['start', 'stop', 'join', 'start', 'stop', 'join']), True),
+    # start() while a requested shutdown is still being carried out
+    'restart-no-join': (dict(a=['start', 'stop', 'start']), False),
+    'concurrent': (dict(a=['start', 'stop'], b=['start']), False),
+}
+
+
+def server_life(chk, rnd):
+  """spec/dist/ServerLife.tla: start() / stop() / the serving thread of one CourierServer object.  TLC: with the
+  discipline built into start() (JoinFirst) every script settles correctly; the code as it is settles correctly for the
+  disciplined scripts and loses a start() issued during a pending shutdown (an observation outside the listed
+  properties, see DESIGN).  The real server runs the scripts under the deterministic scheduler: every settled outcome
+  must be one the as-implemented specification reaches, and the disciplined scripts (a worker that rejoins, C06) must
+  end with a started, announced server and exactly one serving thread."""
+  from harness import qcheck, sched, serverlife
+  laws = ['OneServingThread', 'Settled', 'StartIsNotLost']
+
+  def tla(ops):
+    return '[' + ', '.join(f'{c} |-> <<' + ', '.join(f'"{o}"' for o in v) + '>>' for c, v in sorted(ops.items())) + ']'
+
+  lost = 0
+  for name, (ops, disciplined) in LIFE_SCRIPTS.items():
+    consts = dict(Scripts='<- mc_Scripts', MaxThreads=3)
+    good = tlc.run('dist', 'ServerLife', tlc.cfg_text(constants=dict(consts, JoinFirst=True), invariants=laws, deadlock=False),
+                   mc_defs=dict(mc_Scripts=tla(ops)), coverage=True, timeout=600)
+    chk.add_tlc(good, f'ServerLife/{name}/JoinFirst')
+    if not good.ok:
+      chk.machinery_failure(f'ServerLife.tla [{name}, JoinFirst] violates {good.error_name}')
+    asis = tlc.run('dist', 'ServerLife', tlc.cfg_text(constants=dict(consts, JoinFirst=False), invariants=laws, deadlock=False),
+                   mc_defs=dict(mc_Scripts=tla(ops)), timeout=600)
+    chk.coverage.setdefault('server_life_as_implemented', {})[name] = asis.error_name or 'ok'
+    if disciplined and not asis.ok:
+      chk.machinery_failure(f'ServerLife.tla [{name}] as implemented violates {asis.error_name}: the disciplined scripts are expected to hold')
+    if not disciplined and asis.ok:
+      chk.machinery_failure(f'ServerLife.tla [{name}] as implemented satisfies every law: the model no longer shows the lost start')
+    gen = tlc.run('dist', 'ServerLife', tlc.cfg_text(constants=dict(consts, JoinFirst=False), invariants=['Emit'], deadlock=False),
+                  mc_defs=dict(mc_Scripts=tla(ops)), workers=1, timeout=600)
+    allowed = {(h['started'], h['serving'], h['threads'], h['last'], h['req']) for h in gen.histories}
+    if not allowed:
+      chk.machinery_failure(f'ServerLife.tla [{name}] exports no settled outcome')
+    runs = [serverlife.run_script(ops, sched.Random(random.Random(chk.seed * 1009 + i), stickiness=rnd.choice([0.0, 0.5, 0.8])))
+            for i in range(25 if chk.tier == 'quick' else 400)]
+    runs += [o for o, _ in qcheck.explore(None, bound=2, max_runs=60 if chk.tier == 'quick' else 1500, rnd=rnd,
+                                         run=lambda pol, ops=ops: serverlife.run_script(ops, pol))]
+    drift = 0
+    for o in runs:
+      chk.replayed()
+      ctx = dict(kind='server-life', script=ops, schedule=o['schedule'], outcome={k: o[k] for k in ('started', 'serving', 'threads', 'last', 'req', 'errors')})
+      if o['failure'] or o['callers_left'] or o['stuck'] or o['errors']:
+        chk.violation(f'rejoin:server-life:{name}:stuck-or-error',
+                      f'[{ops}] callers left {o["callers_left"]}, threads stuck {o["stuck"]}, errors {o["errors"]}, {o["failure"]}', ctx)
+        break
+      got = (o['started'], o['serving'], o['threads'], o['last'], o['req'])
+      if got not in allowed:
+        drift += 1
+      ok = o['started'] and o['serving'] == 1 and o['last'] == 'alive' if ops['a'][-1] == 'start' and len(ops) == 1 else \
+          (not o['started'] and o['serving'] == 0 and o['last'] == 'dead') if len(ops) == 1 else True
+      if disciplined and not ok:
+        chk.violation(f'rejoin:server-life:{name}:not-settled',
+                      f'[{ops}] settles with started={o["started"]} serving threads={o["serving"]} last notice={o["last"]}', ctx)
+        break
+      if not disciplined and not (o['started'] and o['serving'] == 1):
+        lost += 1
+    if drift:
+      print(f'MODEL-DRIFT property=C06 server life [{name}]: {drift} of {len(runs)} settled outcomes of the real server are not reached by ServerLife.tla')
+  chk.coverage['server_life_lost_starts_observed'] = lost
+
+
 def record_iterate(n, shards, workers, plan, *, retry_threshold=50, call_timeout=20.0, threshold=90.0, deadline=25.0):
   """Runs WorkerPool.iterate under a fault plan and records the events of Trace_Sched.tla."""
   import re
@@ -669,6 +740,7 @@ def body(chk):
   judge(chk, 'app-error element 3 raises', n, out, {}, expect_error=('RuntimeError', 'ValueError', 'ExceptionGroup'))
   as_completed_plans(chk, rnd)
   as_completed_model(chk, rnd)
+  server_life(chk, rnd)
   answer_races_death(chk)
   graceful_rejoin(chk)
   graceful_rejoin(chk, same_object=True)
